@@ -10,7 +10,7 @@
 (*   field [att, out, keys (seq of [s, low]), ci, req, hasdef, def, defer,    *)
 (*          noin, noout, fmode, deps (seq of att)]      (type of every field: int) *)
 (*   opts  [mode, addition, ignore_required, no_default, hasforce, force,     *)
-(*          defer_default, ignore_conflicts, ci, minp, maxp]                  *)
+(*          defer_default, ignore_conflicts, ci, minp, maxp, exclude]         *)
 (*   input seq of [k |-> [s, low], v |-> value]                                *)
 (* P-layer: Admissible(d, o, x, outcome) -- the documented field rules        *)
 (* (references/field.md, options.md), field by field, with every choice the   *)
@@ -68,15 +68,19 @@ MustKinds(d, o, x) ==
   (IF o.maxp # 0 /\ Len(x) > o.maxp THEN {"params"} ELSE {}) \cup
   (IF o.minp # 0 /\ Len(x) < o.minp THEN {"params"} ELSE {}) \cup
   UNION {  (IF TakesInput(d, o, x, i) /\ Conflict(d, o, x, i) THEN {"alias"} ELSE {})
-      \cup (IF TakesInput(d, o, x, i) /\ (IF o.ignore_conflicts THEN \A y \in ProvidedIdx(d, o, x, i) : Fails(x[y].v)
-                                            ELSE \E y \in ProvidedIdx(d, o, x, i) : Fails(x[y].v)) THEN {"parse"} ELSE {})
+      \* invalid_values='exclude': an invalid value of a field that is not required is dropped (the field takes its default)
+      \cup (IF TakesInput(d, o, x, i) /\ (~o.exclude \/ Required(d.fields[i], o)) /\
+                (IF o.ignore_conflicts THEN \A y \in ProvidedIdx(d, o, x, i) : Fails(x[y].v)
+                                       ELSE \E y \in ProvidedIdx(d, o, x, i) : Fails(x[y].v)) THEN {"parse"} ELSE {})
       \cup (IF ~NoInput(d.fields[i], o) /\ ProvidedIdx(d, o, x, i) = {} /\ Required(d.fields[i], o) THEN {"absence"} ELSE {})
-      \cup (IF TakesInput(d, o, x, i) /\ DepMissing(d, o, x, i) THEN {"deps"} ELSE {})
+      \cup (IF TakesInput(d, o, x, i) /\ DepMissing(d, o, x, i) /\ (\A y \in ProvidedIdx(d, o, x, i) : ~Fails(x[y].v)) THEN {"deps"} ELSE {})
       : i \in 1..Len(d.fields) } \cup
   (IF o.addition = "forbid" /\ Unknown(d, o, x) # {} THEN {"exceed"} ELSE {}) \cup
-  (IF o.addition = "int" /\ \E y \in Unknown(d, o, x) : Fails(x[y].v) THEN {"parse"} ELSE {})
+  (IF o.addition = "int" /\ ~o.exclude /\ \E y \in Unknown(d, o, x) : Fails(x[y].v) THEN {"parse"} ELSE {})
 MayKinds(d, o, x) ==
   UNION {  (IF TakesInput(d, o, x, i) /\ DepDoubtful(d, o, x, i) THEN {"deps"} ELSE {})
+      \* some but not all values given for the field are invalid: whether its dependencies count depends on which one is taken
+      \cup (IF TakesInput(d, o, x, i) /\ DepMissing(d, o, x, i) /\ (\E y \in ProvidedIdx(d, o, x, i) : ~Fails(x[y].v)) THEN {"deps"} ELSE {})
       \* a field that does not take input ignores what is provided for it; a conflict among the ignored values may
       \* or may not be reported
       \cup (IF ~TakesInput(d, o, x, i) /\ Conflict(d, o, x, i) THEN {"alias"} ELSE {})
@@ -88,7 +92,8 @@ ErrKinds(d, o, x) == MustKinds(d, o, x) \cup MayKinds(d, o, x)
 \* conflicts are ignored, in which case the documentation does not say which one wins)
 FieldValues(d, o, x, i) ==
   LET f == d.fields[i] IN
-  IF TakesInput(d, o, x, i) THEN {Conv(x[y].v) : y \in ProvidedIdx(d, o, x, i)} \ {Unprov}
+  IF TakesInput(d, o, x, i) THEN ({Conv(x[y].v) : y \in ProvidedIdx(d, o, x, i)} \ {Unprov})
+                                 \cup (IF o.exclude /\ \E y \in ProvidedIdx(d, o, x, i) : Fails(x[y].v) THEN {DefaultOf(f, o)} ELSE {})
   ELSE {DefaultOf(f, o)}
 \* outcome: [ok, kind, data (assoc out/extra key -> value), attrs (assoc att -> value or Unprov)]
 Admissible(d, o, x, r) ==
@@ -100,7 +105,8 @@ Admissible(d, o, x, r) ==
               /\ Get(r.attrs, f.att) = (IF v # Unprov THEN v ELSE DeferredOf(f, o))
        /\ \A y \in Unknown(d, o, x) :
             CASE o.addition = "any" -> Has(r.data, x[y].k.s) /\ Get(r.data, x[y].k.s) \in {x[z].v : z \in {w \in Unknown(d, o, x) : x[w].k.s = x[y].k.s}}
-              [] o.addition = "int" -> Has(r.data, x[y].k.s) /\ Get(r.data, x[y].k.s) \in {Conv(x[z].v) : z \in {w \in Unknown(d, o, x) : x[w].k.s = x[y].k.s}}
+              [] o.addition = "int" -> IF Fails(x[y].v) THEN ~Has(r.data, x[y].k.s)       \* excluded (otherwise an error above)
+                                       ELSE Has(r.data, x[y].k.s) /\ Get(r.data, x[y].k.s) = Conv(x[y].v)
               [] OTHER -> ~Has(r.data, x[y].k.s)
        /\ \A e \in Range(r.data) : (\E i \in 1..Len(d.fields) : d.fields[i].out = e.k) \/ (\E y \in Unknown(d, o, x) : x[y].k.s = e.k)
 WhyNot(d, o, x, r) ==
